@@ -48,3 +48,19 @@ From RS Require Import Transition Schedule SchedInv SchedStruct SchedFormLimFact
 Theorem C10_reachable_formation_and_track_limits : forall nw, stmt_reachable_form_limits nw.
 Proof. exact reachable_form_limits. Qed.
 Print Assumptions C10_reachable_formation_and_track_limits.
+
+(** listings: "vehicle and dummy listings are sorted and match the stored tours". For every history of public
+    modifications in which fit_reassign is not called with provider = receiver ([dreachable]: the other ten
+    modifications unrestricted) the full listing invariant holds; without that restriction everything except
+    "every stored dummy is listed" still holds, and the unrestricted statement is refuted — on a network with
+    negative dead-head durations, which no input can produce (the only witness known). *)
+From RS Require Import SchedListFacts.
+Theorem C10_reachable_listing : forall nw s, dreachable nw s -> ListingOK nw s.
+Proof. exact reachable_listing_under_distinct. Qed.
+Print Assumptions C10_reachable_listing.
+Theorem C10_reachable_listing_partial : forall nw s, reachable nw s -> ListingWeak nw s.
+Proof. exact reachable_listing_partial. Qed.
+Print Assumptions C10_reachable_listing_partial.
+Theorem C10_reachable_listing_unrestricted_refuted : ~ (forall nw, stmt_reachable_listing nw).
+Proof. exact reachable_listing_refuted. Qed.
+Print Assumptions C10_reachable_listing_unrestricted_refuted.
